@@ -8,3 +8,15 @@ EXTRA = [
     ("C16", "DsProofs.Properties.C16", ["C16_keep_nonempty", "C16_keep_exact", "C16_defined", "C16_no_trunc", "C16_counter_invariant", "C16_trunc_sound",
                                          "C16_trunc_zero", "C16_trunc_zero_column"]),
 ]
+EXTRA += [
+    ("C05", "DsProofs.Properties.C05", ["DsProofs.C05.C05_main", "DsProofs.C05.C05_ofExprs", "DsProofs.C05.C05_independent", "DsProofs.C05.C05_queryIdx",
+                                         "DsProofs.C05.C05_dict", "DsProofs.C05.C05_wrong_length", "DsProofs.C05.C05_rowSem_iff"]),
+    ("C11", "DsProofs.Properties.C11", ["DsProofs.C11.C11_and", "DsProofs.C11.C11_or", "DsProofs.C11.C11_nested", "DsProofs.C11.C11_proper",
+                                         "DsProofs.C11.C11_roundtrip", "DsProofs.C11.C11_container"]),
+    ("C12", "DsProofs.Properties.C12", ["DsProofs.C12.C12_fork", "DsProofs.C12.C12_select", "DsProofs.C12.C12_default", "DsProofs.C12.C12_groups",
+                                         "DsProofs.C12.C12_groups_units", "DsProofs.C12.C12_join", "DsProofs.C12.C12_wellPadded"]),
+    ("C19", "DsProofs.Properties.C19", ["DsProofs.C19.C19_setItem", "DsProofs.C19.C19_insert", "DsProofs.C19.C19_append", "DsProofs.C19.C19_delItem",
+                                         "DsProofs.C19.C19_delMany", "DsProofs.C19.C19_select", "DsProofs.C19.C19_len", "DsProofs.C19.C19_step",
+                                         "DsProofs.C19.C19_history", "DsProofs.C19.C19_query", "DsProofs.C19.C19_history_query"]),
+    ("C17", "DsProofs.Properties.C04", ["C04_estimator", "C04_uniform"]),
+]
